@@ -187,7 +187,7 @@ func Sin(d Number) Number {
 			Real:    d.Real,
 			E1mag:   d.E1mag,
 			E2mag:   d.E2mag,
-			E1E2mag: -d.Real,
+			E1E2mag: zeroE1E2(d.E1E2mag, -d.Real),
 		}
 	}
 	fn := math.Sin(d.Real)
@@ -230,7 +230,7 @@ func Tan(d Number) Number {
 			Real:    d.Real,
 			E1mag:   d.E1mag,
 			E2mag:   d.E2mag,
-			E1E2mag: d.Real,
+			E1E2mag: zeroE1E2(d.E1E2mag, d.Real),
 		}
 	}
 	fn := math.Tan(d.Real)
@@ -256,7 +256,7 @@ func Asin(d Number) Number {
 			Real:    d.Real,
 			E1mag:   d.E1mag,
 			E2mag:   d.E2mag,
-			E1E2mag: d.Real,
+			E1E2mag: zeroE1E2(d.E1E2mag, d.Real),
 		}
 	} else if m := math.Abs(d.Real); m >= 1 {
 		if m == 1 {
@@ -332,7 +332,7 @@ func Atan(d Number) Number {
 			Real:    d.Real,
 			E1mag:   d.E1mag,
 			E2mag:   d.E2mag,
-			E1E2mag: -d.Real,
+			E1E2mag: zeroE1E2(d.E1E2mag, -d.Real),
 		}
 	}
 	fn := math.Atan(d.Real)
@@ -344,4 +344,14 @@ func Atan(d Number) Number {
 		E2mag:   deriv * d.E2mag,
 		E1E2mag: deriv*d.E1E2mag + d.E1mag*d.E2mag*(-2*d.Real/(deriv1*deriv1)),
 	}
+}
+
+// zeroE1E2 returns the ϵ₁ϵ₂ part of f(d) at d.Real == 0 for a function f with
+// f′(0) = 1 and f″(0) = 0: the ϵ₁ϵ₂ part of d, or, if that is zero, the zero
+// with the sign of the vanishing second derivative term.
+func zeroE1E2(e1e2, zero float64) float64 {
+	if e1e2 == 0 {
+		return zero
+	}
+	return e1e2
 }
